@@ -438,6 +438,40 @@ func (e *Engine) runUnit(c *Contract) (u *Unit) {
 	ctl.ret = func(s2 *State, vals []Value) { u.exitFrame(s2, vals) }
 	u.ghostAt(st, "entry", pos)
 	u.block(st, u.body.List, ctl, func(s2 *State) { u.exitFrame(s2, nil) })
+	// "nomethods T: m1, m2": the methods named stay the promoted ones of an embedded value - a method of that name declared on
+	// T itself would silently take over every call made through T (structural obligation)
+	for _, nm := range c.NoMethods {
+		parts := strings.SplitN(nm, ":", 2)
+		if len(parts) != 2 || u.pkg == nil || u.pkg.Types == nil {
+			continue
+		}
+		tn := strings.TrimSpace(parts[0])
+		obj := u.pkg.Types.Scope().Lookup(tn)
+		named, _ := func() (*types.Named, bool) {
+			if obj == nil {
+				return nil, false
+			}
+			n, ok := obj.Type().(*types.Named)
+			return n, ok
+		}()
+		for _, m := range strings.Split(parts[1], ",") {
+			m = strings.TrimSpace(m)
+			o := &Obligation{Name: "shadow/" + tn + "." + m, Func: u.name, Kind: "shadow", Property: c.Props, Goal: "true", Status: "discharged", Solver: "syntactic",
+				Note: "type " + tn + " declares no method " + m + " of its own (the promoted one is what callers reach)"}
+			declared := named == nil
+			if named != nil {
+				for i := 0; i < named.NumMethods(); i++ {
+					if named.Method(i).Name() == m {
+						declared = true
+					}
+				}
+			}
+			if declared {
+				o.Goal, o.Status, o.RawOut = "false", "failed-nomodel", "type "+tn+" declares its own method "+m+" (or the type is gone): it shadows the promoted method"
+			}
+			u.obls = append(u.obls, o)
+		}
+	}
 	// anchors that were never reached
 	for id := range c.Loops {
 		if !u.reached["loop "+id] {
